@@ -772,6 +772,16 @@ class Flow:
             fn = self.repo.mod(rel).functions().get(name) if rel in self.repo.py_files else None
             if fn is not None:
                 return self.inline(st, fn, _NO_RECV, args, kw or {}, name, self.repo.mod(rel).constants())
+            # ... or one imported from another module of the package (`from ..expression import match_regex`)
+            imp = self.repo.imports(rel).get(name) if rel in self.repo.py_files else None
+            if imp is not None:
+                tail = imp[0].lstrip(".").replace(".", "/")
+                for other in self.repo.py_files:
+                    stem = other[:-3]
+                    if other != rel and (not tail or stem.endswith("/" + tail) or stem.endswith("/" + tail + "/__init__") or stem == tail):
+                        fn = self.repo.mod(other).functions().get(imp[1])
+                        if fn is not None:
+                            return self.inline(st, fn, _NO_RECV, args, kw or {}, name, self.repo.mod(other).constants())
         if any(isinstance(a, PathRef) and a.path == "state" for a in args):
             raise self.unsupported(f"call {name}(...) receives the parser state")
         return [(st, Opq(ast.unparse(node)[:40]))]
